@@ -41,6 +41,7 @@ TFinish == /\ l <= Len(Tr) /\ Ev.e = "Finish" /\ Step /\ phase = "Fit"
 
 TProject == /\ l <= Len(Tr) /\ Ev.e = "Project" /\ Step /\ phase = "Finished"
             /\ PropProject(Ev.err) /\ (PropOnly \/ ImplProject(Ev.err))
+            /\ PropResidual(Ev.gr)                     \* GetResidualMatrix = preprocessed data - scores x loadings^T
             /\ phase' = "Projected"
             /\ UNCHANGED <<n, c, scaling, npc, rank, tail, k, ssLeft, evals>>
 
